@@ -47,7 +47,7 @@ Definition is_head (m : bytes) : bool := beq m (s "HEAD").
 
 (* all read loops of an action, in order *)
 Fixpoint do_reads (c : cfg) (reads : list (N * nat)) (r : breader) (st : stream) (al : allocs)
-                  (acc : bytes) (e : read_end) : bytes * read_end * breader * stream * allocs :=
+                  (acc : list bytes) (e : read_end) : list bytes * read_end * breader * stream * allocs :=
   match reads with
   | [] => (acc, e, r, st, al)
   | (m, n) :: t =>
@@ -63,7 +63,7 @@ Definition ALL : N := (2 ^ 62)%N.
 Fixpoint serve_loop (c : cfg) (date : bytes) (fuel : nat) (script : list action) (dflt : action)
                     (st : stream) (wire : bytes) (reqs : list delivered) (al : allocs) (ok : bool)
   : outcome :=
-  let done e w := mkO (rev reqs) w e al ok in
+  let done e w := mkO (frev reqs) w e al ok in
   match fuel with
   | O => done CHang wire
   | S f =>
@@ -72,18 +72,18 @@ Fixpoint serve_loop (c : cfg) (date : bytes) (fuel : nat) (script : list action)
       | HeadNonAscii => done CClosed wire
       | HeadBadLine =>
           let '(b, m) := render date (empty_response 400) (1, 1)%N [] false None in
-          mkO (rev reqs) (wire ++ b) CClosed al (ok && m)
+          mkO (frev reqs) (wire ++ b) CClosed al (ok && m)
       | HeadBadHeader ver =>
           let '(b, m) := render date (empty_response 400) ver [] false None in
-          mkO (rev reqs) (wire ++ b) CClosed al (ok && m)
+          mkO (frev reqs) (wire ++ b) CClosed al (ok && m)
       | HeadOk m url ver hs rest =>
           match framing c hs with
           | FrExpectationFailed =>
               let '(b, mo) := render date (empty_response 417) ver [] true None in
-              mkO (rev reqs) (wire ++ b) CClosed al (ok && mo)
+              mkO (frev reqs) (wire ++ b) CClosed al (ok && mo)
           | FrBadContentLength =>
               let '(b, mo) := render date (empty_response 400) ver [] false None in
-              mkO (rev reqs) (wire ++ b) CClosed al (ok && mo)
+              mkO (frev reqs) (wire ++ b) CClosed al (ok && mo)
           | FrOk kind bl expects =>
               (* the reader the request gets, and the stream after new_request *)
               let built : option (breader * stream * allocs) + conn_end :=
@@ -99,7 +99,7 @@ Fixpoint serve_loop (c : cfg) (date : bytes) (fuel : nat) (script : list action)
                     else if seof st then inr CClosed else inr COpen
                 end in
               match built with
-              | inr e => mkO (rev reqs) wire e (match kind with KBuffered n => n :: al | _ => al end) ok
+              | inr e => mkO (frev reqs) wire e (match kind with KBuffered n => n :: al | _ => al end) ok
               | inl None => done CHang wire
               | inl (Some (rd, st1, al1)) =>
                   if ver_gt_11 ver then
@@ -110,7 +110,7 @@ Fixpoint serve_loop (c : cfg) (date : bytes) (fuel : nat) (script : list action)
                                                [WithStatus 505]) (1, 1)%N [] false None in
                       let '(st2, al2) := body_drop c rd st1 al1 in
                       serve_loop c date f script dflt st2 (wire ++ b) reqs al2 (ok && mo)
-                    else mkO (rev reqs) wire CHang al1 ok
+                    else mkO (frev reqs) wire CHang al1 ok
                   else
                     let act := match script with a :: _ => a | [] => dflt end in
                     let script' := match script with _ :: t => t | [] => [] end in
@@ -144,13 +144,13 @@ Fixpoint serve_loop (c : cfg) (date : bytes) (fuel : nat) (script : list action)
                           (b, mo, rd', st', al', got', e')
                       end in
                     let '(st4, al4) := body_drop c rd3 st3 al3 in
-                    let d := mkD m url ver hs bl got3 e3 in
+                    let d := mkD m url ver hs bl (pieces_bytes got3) e3 in
                     let wire' := wire ++ w100 ++ wfin in
                     let ok' := ok && m100 && mfin in
                     match e3 with
-                    | EndBlock => mkO (rev (d :: reqs)) (wire ++ w100) CHang al3 ok'
+                    | EndBlock => mkO (frev (d :: reqs)) (wire ++ w100) CHang al3 ok'
                     | _ =>
-                        if last_request ver hs then mkO (rev (d :: reqs)) wire' CClosed al4 ok'
+                        if last_request ver hs then mkO (frev (d :: reqs)) wire' CClosed al4 ok'
                         else serve_loop c date f script' dflt st4 wire' (d :: reqs) al4 ok'
                     end
               end
